@@ -1009,6 +1009,72 @@ fn flood(args: &[String]) {
                 out.emit(json!({"ev":"req","t":last,"ms":last * 1000,"cost":250,"pass":false,"outcome":"ok","deplete":"ok","rcode":-1,"e2e":true}));
             }
         }
+        // ---- the cookie exemption at the listener: a source that presents the server cookie it was issued is not rate
+        // limited; the same cookie presented from another address, or mangled, is
+        async fn burst(src: IpAddr, dst: SocketAddr, name: &dnswire::Name, cookie: Option<Vec<u8>>, n: usize) -> (Vec<(u64, usize, u16)>, Option<Vec<u8>>) {
+            let sock = Arc::new(tokio::net::UdpSocket::bind(SocketAddr::new(src, 0)).await.expect("bind"));
+            let t0 = std::time::Instant::now();
+            let rsock = sock.clone();
+            let recv = tokio::spawn(async move {
+                let mut got: Vec<(u64, usize, u16)> = vec![];
+                let mut opt: Option<Vec<u8>> = None;
+                let mut buf = vec![0u8; 65536];
+                loop {
+                    match tokio::time::timeout(std::time::Duration::from_millis(1200), rsock.recv_from(&mut buf)).await {
+                        Ok(Ok((len, _))) => {
+                            got.push((t0.elapsed().as_millis() as u64, len, if len >= 4 { (buf[3] & 15) as u16 } else { 99 }));
+                            if opt.is_none() {
+                                // the COOKIE option (code 10) of the reply's OPT record, found by the harness's walker
+                                let w = dnswalk::walk(&buf[..len]);
+                                for r in w.secs[2].iter().filter(|r| r.rtype == 41) {
+                                    let d = &r.rdata;
+                                    let mut i = 0;
+                                    while i + 4 <= d.len() {
+                                        let (c, l) = (u16::from_be_bytes([d[i], d[i + 1]]), u16::from_be_bytes([d[i + 2], d[i + 3]]) as usize);
+                                        if c == 10 && i + 4 + l <= d.len() {
+                                            opt = Some(d[i + 4..i + 4 + l].to_vec());
+                                        }
+                                        i += 4 + l;
+                                    }
+                                }
+                            }
+                        }
+                        _ => break,
+                    }
+                }
+                (got, opt)
+            });
+            for i in 0..n {
+                let q = build_query(i as u16, true, false, false, name, 1, 1, Some((1232, false, cookie.clone().map(|c| vec![(10u16, c)]).unwrap_or_default())));
+                let _ = sock.send_to(&q, dst).await;
+                if i % 10 == 9 {
+                    tokio::time::sleep(std::time::Duration::from_millis(5)).await;
+                }
+            }
+            recv.await.unwrap_or_default()
+        }
+        let cc: Vec<u8> = vec![0xc1, 0x1e, 0x47, 0xc0, 0x0c, 0x1e, 0x00, 0x01];
+        let owner: IpAddr = "127.0.40.50".parse().unwrap();
+        let (first, issued) = burst(owner, dst, &short, Some(cc.clone()), 1).await;
+        out.emit(json!({"ev":"cookie_issue","source":owner.to_string(),"replies":first.len(),"cookie_len":issued.as_ref().map(|c| c.len()).unwrap_or(0)}));
+        if let Some(full) = issued.filter(|c| c.len() > 8) {
+            let nflood = n.min(400);
+            let (got, _) = burst(owner, dst, &long, Some(full.clone()), nflood).await;
+            out.emit(json!({"ev":"cookie_flood","kind":"own","source":owner.to_string(),"sent":nflood,"answered":got.len(),"octets":got.iter().map(|g| g.1).sum::<usize>()}));
+            let mut mangled = full.clone();
+            let last = mangled.len() - 1;
+            mangled[last] ^= 1;
+            for (kind, src, cookie) in [("replayed", "127.0.40.51", full.clone()), ("mangled", "127.0.40.52", mangled), ("clientonly", "127.0.40.53", cc.clone())] {
+                let src: IpAddr = src.parse().unwrap();
+                let (got, _) = burst(src, dst, &long, Some(cookie), nflood).await;
+                out.emit(json!({"ev":"cookie_flood","kind":kind,"source":src.to_string(),"sent":nflood,"answered":got.len(),"octets":got.iter().map(|g| g.1).sum::<usize>()}));
+                // and as an ordinary burst for the bound
+                out.emit(json!({"ev":"reset","source":src.to_string(),"sent":nflood,"source_ports":1}));
+                for (ms, len, rcode) in &got {
+                    out.emit(json!({"ev":"req","t":ms / 1000,"ms":ms,"cost":len,"pass":true,"outcome":"ok","deplete":"ok","rcode":rcode,"e2e":true}));
+                }
+            }
+        }
         // the quiet source
         let src: IpAddr = "127.0.40.200".parse().unwrap();
         let sock = tokio::net::UdpSocket::bind(SocketAddr::new(src, 0)).await.expect("bind");
